@@ -228,6 +228,7 @@ type c15WorkerResult struct {
 	MaxDepth   int            `json:"max_depth"`
 	Preempted  int64          `json:"execs_with_preemption"`
 	Truncated  bool           `json:"truncated"`
+	Stuck      string         `json:"stuck,omitempty"`
 	Outcomes   map[string]int `json:"outcomes"`
 	Violations []c15Violation `json:"violations"`
 	IDs        int            `json:"ids"`
@@ -270,6 +271,10 @@ func c15RunScenario(sc c15Scenario, bound int, deadline time.Time, only []int) c
 	check := func(x *sched.Exec, schedule []int) {
 		if x.Preemptions > 0 {
 			res.Preempted++
+		}
+		if x.Stuck {
+			res.Stuck = "a thread blocked outside the scheduler after point " + x.StuckAt
+			return
 		}
 		if x.Deadlock {
 			violate("deadlock", schedule, -1, fmt.Sprint(x.Trace[max(0, len(x.Trace)-6):]))
@@ -382,6 +387,7 @@ func runC15(ctx Ctx) int {
 			idx, _ := strconv.Atoi(ctx.Args[i+1])
 			bound, _ := strconv.Atoi(ctx.Args[i+2])
 			secs, _ := strconv.Atoi(ctx.Args[i+3])
+			sched.Fine = os.Getenv("VERIF_SCHED_FINE") != "0" // statement granularity unless switched off
 			r := c15RunScenario(scs[idx], bound, time.Now().Add(time.Duration(secs)*time.Second), nil)
 			b, _ := json.Marshal(r)
 			fmt.Println("RESULT " + string(b))
@@ -392,8 +398,8 @@ func runC15(ctx Ctx) int {
 		}
 	}
 	run := ev.NewRun("C15")
-	run.Rule = "stateless exploration under a cooperative scheduler: every interleaving, within the preemption bound, of 2-3 real requests against ONE provider (120 pairs over 15 request bodies incl. every body with itself, 3 triples); scheduling points at the entry of every repository function / function literal, every storage call, every sync-shim operation; a state is a schedule (choice sequence); oracle: each reply (IDs, signature bytes masked) equals the reply the same request gets alone on a fresh provider, no reply or storage call carries another session's marker, all message IDs of all threads and executions are distinct NCNames, no deadlock; history companion: every sequence of <= 3 requests on one provider gives each the solo reply; race companion: the same bodies free-running in a -race build"
-	run.Assume = []string{"interleavings inside one function body between two scheduling points, the Go runtime and third-party libraries are not explored by the scheduler; unsynchronised accesses there are the race companion's business (free-running, not exhaustive)", "preemption bound as reported; N is 2-3 threads"}
+	run.Rule = "stateless exploration under a cooperative scheduler: every interleaving, within the preemption bound, of 2-3 real requests against ONE provider (120 pairs over 15 request bodies incl. every body with itself, 3 triples); scheduling points before EVERY STATEMENT of every repository function (and at every function / function-literal entry, every storage call, every sync-shim operation); a state is a schedule (choice sequence); oracle: each reply (IDs, signature bytes masked) equals the reply the same request gets alone on a fresh provider, no reply or storage call carries another session's marker, all message IDs of all threads and executions are distinct NCNames, no deadlock; history companion: every sequence of <= 3 requests on one provider gives each the solo reply; race companion: the same bodies free-running in a -race build"
+	run.Assume = []string{"interleavings inside one statement, inside the Go runtime and inside third-party libraries are not explored by the scheduler; unsynchronised accesses there are the race companion's business (free-running, not exhaustive)", "preemption bound as reported; N is 2-3 threads"}
 	if ctx.Replay != "" {
 		var rp c15Replay
 		if err := loadReplay(ctx.Replay, &rp); err != nil {
@@ -424,6 +430,12 @@ func runC15(ctx Ctx) int {
 	deadline := devx.Deadline(map[string]time.Duration{"quick": 6 * time.Minute, "thorough": 150 * time.Minute}[run.Tier])
 	var mu sync.Mutex
 	truncated := 0
+	// self-test of instrumenter + shims + scheduler on small programs with known outcome sets
+	if out, err := exec.Command(exe, "SCHEDTEST").CombinedOutput(); err != nil {
+		run.HarnessError("scheduler self-test failed: " + clip(out, 600))
+	} else {
+		run.Set("scheduler_selftest", fmt.Sprintf("%d programs (channels, select, mutex, rwmutex, cond, once, waitgroup, go statements): outcome sets as stated", strings.Count(string(out), "schedtest ok")))
+	}
 	_, complete := parallel(len(scs), deadline, func(i int) {
 		sc := scs[i]
 		bound := pairBound
@@ -456,7 +468,9 @@ func runC15(ctx Ctx) int {
 		if !r.Replayed {
 			run.HarnessError("replay of the default schedule diverged in " + sc.Name)
 		}
-		if r.Truncated {
+		if r.Stuck != "" {
+			run.HarnessError(fmt.Sprintf("scenario %q cannot be explored: %s (watchdog %s): the thread waits on something the overlay does not route through the scheduler", sc.Name, r.Stuck, sched.Watchdog))
+		} else if r.Truncated {
 			truncated++
 		}
 		if i%23 == 0 {
